@@ -73,7 +73,7 @@ DedupFrom(q, seen) ==
 
 \* Canonical form of the path spellings the families use (Canon.tla specifies the function
 \* in general; here a path is spelled  prefix ++ name  with a prefix that cancels out).
-Prefixes == {"", "./", "zz/../", "./zz/.././"}
+Prefixes == {"", "./", "zz/../", "./zz/.././", ".\\", "zz\\..\\"}
 
 ---------------------------------------------------------------------------
 \* Statements.
@@ -234,7 +234,7 @@ PlainPaths == [o |-> <<PP("o1"), PP("o2")>>, io |-> <<PP("p1")>>, i |-> <<PP("i1
                ii |-> <<PP("j1"), PP("j2")>>, oo |-> <<PP("k1")>>, v |-> <<PP("v1")>>]
 EscPaths == [o |-> <<Path("", <<Lit("o"), SP, Lit("1")>>), Path("", <<Lit("d/o"), COLON, Lit("2")>>)>>,
              io |-> <<Path("", <<Lit("p"), DOLLAR, Lit("1")>>)>>,
-             i |-> <<Path("", <<Lit("i"), SP, SP, Lit("1")>>), Path("", <<Var("src"), Lit("/i2.c")>>)>>,
+             i |-> <<Path("", <<Lit("i"), SP, SP, Lit("1")>>), Path("", <<Var("src"), Lit("~2/i~4.c")>>)>>,
              ii |-> <<Path("", <<Lit("j1"), COLON>>), PP("j2")>>,
              oo |-> <<Path("", <<DOLLAR, Lit("k1")>>)>>,
              v |-> <<Path("", <<Lit("v"), SP, Lit("1")>>)>>]
@@ -259,7 +259,7 @@ ShapeInputs ==
 \* -- attrs: rule attributes, build-level overrides, spelling of bindings
 AttrBinds(d, df, dp, rs, pl) ==
   << <<"command", <<Lit("cc "), Var("in"), Lit(" "), DOLLAR, Lit("x "), Var("out")>> >> >>
-  \o (IF d THEN << <<"description", <<Lit("CC "), Var("out")>> >> >> ELSE <<>>)
+  \o (IF d THEN << <<"description", <<Lit("CC~3 "), Var("out"), Lit("~2")>> >> >> ELSE <<>>)
   \o (IF df THEN << <<"depfile", <<Var("out"), Lit(".d")>> >> >> ELSE <<>>)
   \o (IF dp = "" THEN <<>> ELSE << <<"deps", P(dp)>> >>)
   \o (IF rs THEN << <<"rspfile", <<Var("out"), Lit(".rsp")>> >>,
@@ -327,7 +327,8 @@ ScopeStmts(pre, mid, bb, cmd) ==
    build |-> <<Build(<<Path("", <<Lit("out"), Var("a")>>)>>, <<>>, "r",
                      <<Path("", <<Lit("in"), Var("b")>>)>>, <<>>, <<>>, <<>>, bb)>>,
    post |-> <<Bind("a", P("late"))>>,
-   use |-> <<Build(<<PP("last")>>, <<>>, "r", <<PP("s")>>, <<>>, <<>>, <<>>, <<>>)>>]
+   use |-> <<Build(<<PP("last")>>, <<>>, "r", <<PP("s")>>, <<>>, <<>>, <<>>, <<>>)>>,
+   use2 |-> <<Build(<<PP("inner")>>, <<>>, "r", <<PP("s")>>, <<>>, <<>>, <<>>, <<>>)>>]
 
 \* placement of the pieces in files
 ScopeFiles(s, place) ==
@@ -342,6 +343,14 @@ ScopeFiles(s, place) ==
     [] place = "inc-binds" ->       \* bindings made in an included file are seen afterwards
          <<File("build.ninja", s.pre \o s.rule \o <<[k |-> "include", file |-> 2]>> \o s.build \o s.post \o s.use),
            File("inc.ninja", s.mid)>>
+    [] place = "inc2-binds" ->      \* ... also through two levels of include
+         <<File("build.ninja", s.pre \o s.rule \o <<[k |-> "include", file |-> 2]>> \o s.build \o s.post \o s.use),
+           File("mid.ninja", <<[k |-> "comment", text |-> " mid"], [k |-> "include", file |-> 3]>>),
+           File("leaf.ninja", s.mid)>>
+    [] place = "sub-inc-binds" ->   \* an include inside a subninja extends the subninja's scope only
+         <<File("build.ninja", s.pre \o s.rule \o <<[k |-> "subninja", file |-> 2]>> \o s.build \o s.post \o s.use),
+           File("mid.ninja", <<[k |-> "include", file |-> 3]>> \o s.use2),
+           File("leaf.ninja", s.mid)>>
     [] place = "sub-binds" ->       \* bindings made in a subninja file are not
          <<File("build.ninja", s.pre \o s.rule \o <<[k |-> "subninja", file |-> 2]>> \o s.build \o s.post \o s.use),
            File("sub.ninja", s.mid)>>
@@ -351,12 +360,12 @@ ScopeInputs ==
      pre \in (IF Quick THEN {<<e>> : e \in FileBinds} \cup {<<>>} ELSE Seqs2(FileBinds)),
      mid \in {<<>>} \cup {<<e>> : e \in FileBinds},
      bb \in BuildBinds, cmd \in RuleCmds,
-     place \in {"main", "inc-build", "sub-build", "inc-binds", "sub-binds"},
+     place \in {"main", "inc-build", "sub-build", "inc-binds", "sub-binds", "inc2-binds", "sub-inc-binds"},
      c \in {PlainC, [PlainC EXCEPT !.brace = TRUE]}}
 
 \* -- dup (C14): repeated outputs within one statement and across statements, any spelling
 DupNames == {"d", "e"}
-OutSpell == {Path(pre, P(nm)) : pre \in (IF Quick THEN {"", "zz/../"} ELSE Prefixes), nm \in DupNames}
+OutSpell == {Path(pre, P(nm)) : pre \in (IF Quick THEN {"", "zz/../", ".\\"} ELSE Prefixes), nm \in DupNames}
 OutLists == UNION {[1..n -> OutSpell] : n \in 1..(IF Quick THEN 3 ELSE 4)}
 
 DupOne(outs, k) ==      \* one statement, the first k outputs explicit, the rest implicit
@@ -364,8 +373,16 @@ DupOne(outs, k) ==      \* one statement, the first k outputs explicit, the rest
       << Rule("r", << <<"command", P("make")>> >>),
          Build(Take(outs, k), SubSeq(outs, k + 1, Len(outs)), "r", <<PP("s")>>, <<>>, <<>>, <<>>, <<>>) >>)>>
 
-DupTwo(o1, o2, where) ==   \* two statements (the second possibly in an included file)
-  IF where = "main"
+DupTwo(o1, o2, where) ==   \* two statements (one of them possibly in an included file)
+  IF where = "include-first"
+    THEN \* the first producer lives in an included file, the second follows the include line
+         <<File("build.ninja",
+             << Rule("r", << <<"command", P("make")>> >>),
+                [k |-> "include", file |-> 2],
+                [k |-> "comment", text |-> ""],
+                Build(<<PP("f")>>, o2, "r", <<PP("s")>>, <<>>, <<>>, <<>>, <<>>) >>),
+           File("child.ninja", << Build(o1, <<>>, "r", <<PP("s")>>, <<>>, <<>>, <<>>, <<>>) >>)>>
+  ELSE IF where = "main"
     THEN <<File("build.ninja",
              << Rule("r", << <<"command", P("make")>> >>),
                 Build(o1, <<>>, "r", <<PP("s")>>, <<>>, <<>>, <<>>, <<>>),
@@ -380,7 +397,7 @@ DupTwo(o1, o2, where) ==   \* two statements (the second possibly in an included
 DupInputs ==
   UNION {{<<DupOne(outs, k), PlainC>> : k \in 1..Len(outs)} : outs \in OutLists}
   \cup {<<DupTwo(<<a>>, <<b>>, w), PlainC>> : a \in OutSpell, b \in OutSpell,
-                                             w \in {"main", "include", "subninja"}}
+                                             w \in {"main", "include", "subninja", "include-first"}}
   \cup {<<DupTwo(<<a, a2>>, <<b>>, w), PlainC>> : a \in OutSpell, a2 \in OutSpell, b \in OutSpell,
                                                   w \in {"main"}}
 
